@@ -1,65 +1,65 @@
 //! Stubs for std atomics: a schedule point, then the effect on the real memory location (SC).
 //! Used as `#[kani::stub(core::sync::atomic::Atomic::<usize>::load, crate::verif_shim::sa::usize_load)]`.
-use super::np::point;
+use super::np::point_at;
 use core::sync::atomic::*;
 
-pub fn bool_load(a: &AtomicBool, _o: Ordering) -> bool { point(); unsafe { *a.as_ptr() } }
-pub fn bool_store(a: &AtomicBool, v: bool, _o: Ordering) { point(); unsafe { *a.as_ptr() = v; } }
-pub fn bool_swap(a: &AtomicBool, v: bool, _o: Ordering) -> bool { point(); unsafe { let p = a.as_ptr(); let old = *p; *p = v; old } }
+pub fn bool_load(a: &AtomicBool, _o: Ordering) -> bool { point_at(a.as_ptr() as *const u8); unsafe { *a.as_ptr() } }
+pub fn bool_store(a: &AtomicBool, v: bool, _o: Ordering) { point_at(a.as_ptr() as *const u8); unsafe { *a.as_ptr() = v; } }
+pub fn bool_swap(a: &AtomicBool, v: bool, _o: Ordering) -> bool { point_at(a.as_ptr() as *const u8); unsafe { let p = a.as_ptr(); let old = *p; *p = v; old } }
 pub fn bool_cas(a: &AtomicBool, cur: bool, new: bool, _s: Ordering, _f: Ordering) -> Result<bool, bool> {
-    point(); unsafe { let p = a.as_ptr(); let old = *p; if old == cur { *p = new; Ok(old) } else { Err(old) } }
+    point_at(a.as_ptr() as *const u8); unsafe { let p = a.as_ptr(); let old = *p; if old == cur { *p = new; Ok(old) } else { Err(old) } }
 }
-pub fn bool_fetch_or(a: &AtomicBool, v: bool, _o: Ordering) -> bool { point(); unsafe { let p = a.as_ptr(); let old = *p; *p = old | v; old } }
-pub fn bool_fetch_and(a: &AtomicBool, v: bool, _o: Ordering) -> bool { point(); unsafe { let p = a.as_ptr(); let old = *p; *p = old & v; old } }
+pub fn bool_fetch_or(a: &AtomicBool, v: bool, _o: Ordering) -> bool { point_at(a.as_ptr() as *const u8); unsafe { let p = a.as_ptr(); let old = *p; *p = old | v; old } }
+pub fn bool_fetch_and(a: &AtomicBool, v: bool, _o: Ordering) -> bool { point_at(a.as_ptr() as *const u8); unsafe { let p = a.as_ptr(); let old = *p; *p = old & v; old } }
 
-pub fn usize_load(a: &AtomicUsize, _o: Ordering) -> usize { point(); unsafe { *a.as_ptr() } }
-pub fn usize_store(a: &AtomicUsize, v: usize, _o: Ordering) { point(); unsafe { *a.as_ptr() = v; } }
-pub fn usize_swap(a: &AtomicUsize, v: usize, _o: Ordering) -> usize { point(); unsafe { let p = a.as_ptr(); let old = *p; *p = v; old } }
+pub fn usize_load(a: &AtomicUsize, _o: Ordering) -> usize { point_at(a.as_ptr() as *const u8); unsafe { *a.as_ptr() } }
+pub fn usize_store(a: &AtomicUsize, v: usize, _o: Ordering) { point_at(a.as_ptr() as *const u8); unsafe { *a.as_ptr() = v; } }
+pub fn usize_swap(a: &AtomicUsize, v: usize, _o: Ordering) -> usize { point_at(a.as_ptr() as *const u8); unsafe { let p = a.as_ptr(); let old = *p; *p = v; old } }
 pub fn usize_cas(a: &AtomicUsize, cur: usize, new: usize, _s: Ordering, _f: Ordering) -> Result<usize, usize> {
-    point(); unsafe { let p = a.as_ptr(); let old = *p; if old == cur { *p = new; Ok(old) } else { Err(old) } }
+    point_at(a.as_ptr() as *const u8); unsafe { let p = a.as_ptr(); let old = *p; if old == cur { *p = new; Ok(old) } else { Err(old) } }
 }
-pub fn usize_fetch_add(a: &AtomicUsize, v: usize, _o: Ordering) -> usize { point(); unsafe { let p = a.as_ptr(); let old = *p; *p = old.wrapping_add(v); old } }
-pub fn usize_fetch_sub(a: &AtomicUsize, v: usize, _o: Ordering) -> usize { point(); unsafe { let p = a.as_ptr(); let old = *p; *p = old.wrapping_sub(v); old } }
-pub fn usize_fetch_or(a: &AtomicUsize, v: usize, _o: Ordering) -> usize { point(); unsafe { let p = a.as_ptr(); let old = *p; *p = old | v; old } }
-pub fn usize_fetch_and(a: &AtomicUsize, v: usize, _o: Ordering) -> usize { point(); unsafe { let p = a.as_ptr(); let old = *p; *p = old & v; old } }
+pub fn usize_fetch_add(a: &AtomicUsize, v: usize, _o: Ordering) -> usize { point_at(a.as_ptr() as *const u8); unsafe { let p = a.as_ptr(); let old = *p; *p = old.wrapping_add(v); old } }
+pub fn usize_fetch_sub(a: &AtomicUsize, v: usize, _o: Ordering) -> usize { point_at(a.as_ptr() as *const u8); unsafe { let p = a.as_ptr(); let old = *p; *p = old.wrapping_sub(v); old } }
+pub fn usize_fetch_or(a: &AtomicUsize, v: usize, _o: Ordering) -> usize { point_at(a.as_ptr() as *const u8); unsafe { let p = a.as_ptr(); let old = *p; *p = old | v; old } }
+pub fn usize_fetch_and(a: &AtomicUsize, v: usize, _o: Ordering) -> usize { point_at(a.as_ptr() as *const u8); unsafe { let p = a.as_ptr(); let old = *p; *p = old & v; old } }
 
-pub fn isize_load(a: &AtomicIsize, _o: Ordering) -> isize { point(); unsafe { *a.as_ptr() } }
-pub fn isize_store(a: &AtomicIsize, v: isize, _o: Ordering) { point(); unsafe { *a.as_ptr() = v; } }
-pub fn isize_swap(a: &AtomicIsize, v: isize, _o: Ordering) -> isize { point(); unsafe { let p = a.as_ptr(); let old = *p; *p = v; old } }
+pub fn isize_load(a: &AtomicIsize, _o: Ordering) -> isize { point_at(a.as_ptr() as *const u8); unsafe { *a.as_ptr() } }
+pub fn isize_store(a: &AtomicIsize, v: isize, _o: Ordering) { point_at(a.as_ptr() as *const u8); unsafe { *a.as_ptr() = v; } }
+pub fn isize_swap(a: &AtomicIsize, v: isize, _o: Ordering) -> isize { point_at(a.as_ptr() as *const u8); unsafe { let p = a.as_ptr(); let old = *p; *p = v; old } }
 pub fn isize_cas(a: &AtomicIsize, cur: isize, new: isize, _s: Ordering, _f: Ordering) -> Result<isize, isize> {
-    point(); unsafe { let p = a.as_ptr(); let old = *p; if old == cur { *p = new; Ok(old) } else { Err(old) } }
+    point_at(a.as_ptr() as *const u8); unsafe { let p = a.as_ptr(); let old = *p; if old == cur { *p = new; Ok(old) } else { Err(old) } }
 }
-pub fn isize_fetch_add(a: &AtomicIsize, v: isize, _o: Ordering) -> isize { point(); unsafe { let p = a.as_ptr(); let old = *p; *p = old.wrapping_add(v); old } }
-pub fn isize_fetch_sub(a: &AtomicIsize, v: isize, _o: Ordering) -> isize { point(); unsafe { let p = a.as_ptr(); let old = *p; *p = old.wrapping_sub(v); old } }
-pub fn isize_fetch_or(a: &AtomicIsize, v: isize, _o: Ordering) -> isize { point(); unsafe { let p = a.as_ptr(); let old = *p; *p = old | v; old } }
-pub fn isize_fetch_and(a: &AtomicIsize, v: isize, _o: Ordering) -> isize { point(); unsafe { let p = a.as_ptr(); let old = *p; *p = old & v; old } }
+pub fn isize_fetch_add(a: &AtomicIsize, v: isize, _o: Ordering) -> isize { point_at(a.as_ptr() as *const u8); unsafe { let p = a.as_ptr(); let old = *p; *p = old.wrapping_add(v); old } }
+pub fn isize_fetch_sub(a: &AtomicIsize, v: isize, _o: Ordering) -> isize { point_at(a.as_ptr() as *const u8); unsafe { let p = a.as_ptr(); let old = *p; *p = old.wrapping_sub(v); old } }
+pub fn isize_fetch_or(a: &AtomicIsize, v: isize, _o: Ordering) -> isize { point_at(a.as_ptr() as *const u8); unsafe { let p = a.as_ptr(); let old = *p; *p = old | v; old } }
+pub fn isize_fetch_and(a: &AtomicIsize, v: isize, _o: Ordering) -> isize { point_at(a.as_ptr() as *const u8); unsafe { let p = a.as_ptr(); let old = *p; *p = old & v; old } }
 
-pub fn u64_load(a: &AtomicU64, _o: Ordering) -> u64 { point(); unsafe { *a.as_ptr() } }
-pub fn u64_store(a: &AtomicU64, v: u64, _o: Ordering) { point(); unsafe { *a.as_ptr() = v; } }
-pub fn u64_swap(a: &AtomicU64, v: u64, _o: Ordering) -> u64 { point(); unsafe { let p = a.as_ptr(); let old = *p; *p = v; old } }
+pub fn u64_load(a: &AtomicU64, _o: Ordering) -> u64 { point_at(a.as_ptr() as *const u8); unsafe { *a.as_ptr() } }
+pub fn u64_store(a: &AtomicU64, v: u64, _o: Ordering) { point_at(a.as_ptr() as *const u8); unsafe { *a.as_ptr() = v; } }
+pub fn u64_swap(a: &AtomicU64, v: u64, _o: Ordering) -> u64 { point_at(a.as_ptr() as *const u8); unsafe { let p = a.as_ptr(); let old = *p; *p = v; old } }
 pub fn u64_cas(a: &AtomicU64, cur: u64, new: u64, _s: Ordering, _f: Ordering) -> Result<u64, u64> {
-    point(); unsafe { let p = a.as_ptr(); let old = *p; if old == cur { *p = new; Ok(old) } else { Err(old) } }
+    point_at(a.as_ptr() as *const u8); unsafe { let p = a.as_ptr(); let old = *p; if old == cur { *p = new; Ok(old) } else { Err(old) } }
 }
-pub fn u64_fetch_add(a: &AtomicU64, v: u64, _o: Ordering) -> u64 { point(); unsafe { let p = a.as_ptr(); let old = *p; *p = old.wrapping_add(v); old } }
-pub fn u64_fetch_sub(a: &AtomicU64, v: u64, _o: Ordering) -> u64 { point(); unsafe { let p = a.as_ptr(); let old = *p; *p = old.wrapping_sub(v); old } }
-pub fn u64_fetch_or(a: &AtomicU64, v: u64, _o: Ordering) -> u64 { point(); unsafe { let p = a.as_ptr(); let old = *p; *p = old | v; old } }
-pub fn u64_fetch_and(a: &AtomicU64, v: u64, _o: Ordering) -> u64 { point(); unsafe { let p = a.as_ptr(); let old = *p; *p = old & v; old } }
+pub fn u64_fetch_add(a: &AtomicU64, v: u64, _o: Ordering) -> u64 { point_at(a.as_ptr() as *const u8); unsafe { let p = a.as_ptr(); let old = *p; *p = old.wrapping_add(v); old } }
+pub fn u64_fetch_sub(a: &AtomicU64, v: u64, _o: Ordering) -> u64 { point_at(a.as_ptr() as *const u8); unsafe { let p = a.as_ptr(); let old = *p; *p = old.wrapping_sub(v); old } }
+pub fn u64_fetch_or(a: &AtomicU64, v: u64, _o: Ordering) -> u64 { point_at(a.as_ptr() as *const u8); unsafe { let p = a.as_ptr(); let old = *p; *p = old | v; old } }
+pub fn u64_fetch_and(a: &AtomicU64, v: u64, _o: Ordering) -> u64 { point_at(a.as_ptr() as *const u8); unsafe { let p = a.as_ptr(); let old = *p; *p = old & v; old } }
 
-pub fn u32_load(a: &AtomicU32, _o: Ordering) -> u32 { point(); unsafe { *a.as_ptr() } }
-pub fn u32_store(a: &AtomicU32, v: u32, _o: Ordering) { point(); unsafe { *a.as_ptr() = v; } }
-pub fn u32_swap(a: &AtomicU32, v: u32, _o: Ordering) -> u32 { point(); unsafe { let p = a.as_ptr(); let old = *p; *p = v; old } }
+pub fn u32_load(a: &AtomicU32, _o: Ordering) -> u32 { point_at(a.as_ptr() as *const u8); unsafe { *a.as_ptr() } }
+pub fn u32_store(a: &AtomicU32, v: u32, _o: Ordering) { point_at(a.as_ptr() as *const u8); unsafe { *a.as_ptr() = v; } }
+pub fn u32_swap(a: &AtomicU32, v: u32, _o: Ordering) -> u32 { point_at(a.as_ptr() as *const u8); unsafe { let p = a.as_ptr(); let old = *p; *p = v; old } }
 pub fn u32_cas(a: &AtomicU32, cur: u32, new: u32, _s: Ordering, _f: Ordering) -> Result<u32, u32> {
-    point(); unsafe { let p = a.as_ptr(); let old = *p; if old == cur { *p = new; Ok(old) } else { Err(old) } }
+    point_at(a.as_ptr() as *const u8); unsafe { let p = a.as_ptr(); let old = *p; if old == cur { *p = new; Ok(old) } else { Err(old) } }
 }
-pub fn u32_fetch_add(a: &AtomicU32, v: u32, _o: Ordering) -> u32 { point(); unsafe { let p = a.as_ptr(); let old = *p; *p = old.wrapping_add(v); old } }
-pub fn u32_fetch_sub(a: &AtomicU32, v: u32, _o: Ordering) -> u32 { point(); unsafe { let p = a.as_ptr(); let old = *p; *p = old.wrapping_sub(v); old } }
-pub fn u32_fetch_or(a: &AtomicU32, v: u32, _o: Ordering) -> u32 { point(); unsafe { let p = a.as_ptr(); let old = *p; *p = old | v; old } }
-pub fn u32_fetch_and(a: &AtomicU32, v: u32, _o: Ordering) -> u32 { point(); unsafe { let p = a.as_ptr(); let old = *p; *p = old & v; old } }
+pub fn u32_fetch_add(a: &AtomicU32, v: u32, _o: Ordering) -> u32 { point_at(a.as_ptr() as *const u8); unsafe { let p = a.as_ptr(); let old = *p; *p = old.wrapping_add(v); old } }
+pub fn u32_fetch_sub(a: &AtomicU32, v: u32, _o: Ordering) -> u32 { point_at(a.as_ptr() as *const u8); unsafe { let p = a.as_ptr(); let old = *p; *p = old.wrapping_sub(v); old } }
+pub fn u32_fetch_or(a: &AtomicU32, v: u32, _o: Ordering) -> u32 { point_at(a.as_ptr() as *const u8); unsafe { let p = a.as_ptr(); let old = *p; *p = old | v; old } }
+pub fn u32_fetch_and(a: &AtomicU32, v: u32, _o: Ordering) -> u32 { point_at(a.as_ptr() as *const u8); unsafe { let p = a.as_ptr(); let old = *p; *p = old & v; old } }
 
-pub fn ptr_load<T>(a: &AtomicPtr<T>, _o: Ordering) -> *mut T { point(); unsafe { *a.as_ptr() } }
-pub fn ptr_store<T>(a: &AtomicPtr<T>, v: *mut T, _o: Ordering) { point(); unsafe { *a.as_ptr() = v; } }
-pub fn ptr_swap<T>(a: &AtomicPtr<T>, v: *mut T, _o: Ordering) -> *mut T { point(); unsafe { let p = a.as_ptr(); let old = *p; *p = v; old } }
+pub fn ptr_load<T>(a: &AtomicPtr<T>, _o: Ordering) -> *mut T { point_at(a.as_ptr() as *const u8); unsafe { *a.as_ptr() } }
+pub fn ptr_store<T>(a: &AtomicPtr<T>, v: *mut T, _o: Ordering) { point_at(a.as_ptr() as *const u8); unsafe { *a.as_ptr() = v; } }
+pub fn ptr_swap<T>(a: &AtomicPtr<T>, v: *mut T, _o: Ordering) -> *mut T { point_at(a.as_ptr() as *const u8); unsafe { let p = a.as_ptr(); let old = *p; *p = v; old } }
 pub fn ptr_cas<T>(a: &AtomicPtr<T>, cur: *mut T, new: *mut T, _s: Ordering, _f: Ordering) -> Result<*mut T, *mut T> {
-    point(); unsafe { let p = a.as_ptr(); let old = *p; if old == cur { *p = new; Ok(old) } else { Err(old) } }
+    point_at(a.as_ptr() as *const u8); unsafe { let p = a.as_ptr(); let old = *p; if old == cur { *p = new; Ok(old) } else { Err(old) } }
 }
 pub fn fence_stub(_o: Ordering) {}
